@@ -50,6 +50,12 @@ FIXED_PROGRAMS = [
     [[["open", "h", "/d1/OLD.BIN", "r+"], ["write", "h", 4, 1500], ["close", "h"]],
      [["open", "g", "/ROOT.BIN", "a"], ["write", "g", 5, 600], ["close", "g"]]],
     [[["create", "/e/A"]], [["create", "/e/B"]], [["makedir", "/e/C"]]],
+    # a direct handle session racing another modification of the SAME directory
+    [[["open", "h", "/e/hw.bin", "w"], ["write", "h", 6, 700], ["close", "h"]], [["create", "/e/F.TXT"]]],
+    [[["open", "h", "/d1/OLD.BIN", "a"], ["write", "h", 7, 900], ["close", "h"]], [["makedir", "/d1/sub dir"]]],
+    [[["open", "h", "/d2/n.bin", "w"], ["write", "h", 8, 1300], ["close", "h"]], [["remove", "/d2/X.TXT"]]],
+    [[["open", "h", "/e/a.bin", "w"], ["write", "h", 9, 600], ["close", "h"]],
+     [["open", "g", "/e/b.bin", "w"], ["write", "g", 10, 600], ["close", "g"]]],
 ]
 
 
